@@ -269,21 +269,24 @@ def _scribble(a):
     for name in ('labile_mods', 'unknown_mods', 'nterm_mods', 'cterm_mods', 'isotope_mods', 'static_mods', 'charge_adducts'):
         v = getattr(a, name)
         if v is not None:
+            for m in v:
+                m.val = 'scribbled'
+                m.mult = 77
             v.append(Mod('scribble', 1))
-            v[0].val = 'scribbled'
-            v[0].mult = 77
     if a.internal_mods is not None:
         for k in list(a.internal_mods):
+            for m in a.internal_mods[k]:
+                m.val = 'scribbled'
+                m.mult = 77
             a.internal_mods[k].append(Mod('scribble', 1))
-            a.internal_mods[k][0].val = 'scribbled'
         a.internal_mods[9999] = [Mod('x', 1)]
     if a.intervals is not None:
         for iv in a.intervals:
             iv.start += 1000
             if iv.mods is not None:
-                if iv.mods:
-                    iv.mods[0].val = 'scribbled'  # the Mod objects inside an interval too, not only the list
-                    iv.mods[0].mult = 77
+                for m in iv.mods:  # the Mod objects inside an interval too, not only the list
+                    m.val = 'scribbled'
+                    m.mult = 77
                 iv.mods.append(Mod('scribble', 1))
         a.intervals.append(a.intervals[0])
     a.charge = 42
